@@ -342,7 +342,7 @@ impl DetSim {
     fn gen_tree(&self, r: &mut Rng) -> NodeSpec {
         const CLASSES: &[&str] = &[
             "Part", "Part", "TextLabel", "Folder", "ObjectValue", "Model", "WeldConstraint", "MeshPart",
-            "StringValue", "Script", "VerifUnknownA", "VerifUnknownB", "Decal", "SpawnLocation", "TextButton",
+            "StringValue", "Script", "VerifUnknownA", "VerifUnknownB", "Decal", "SpawnLocation", "TextButton", "MeshPart", "ImageLabel", "ScreenGui",
         ];
         let n_pal = r.range(1, 4) as usize;
         let palette: Vec<String> = (0..n_pal).map(|_| r.pick(CLASSES).to_string()).collect();
@@ -387,6 +387,12 @@ impl DetSim {
             &["formFactor", "FormFactor", "formFactorRaw"],
             &["CFrame", "CoordinateFrame"],
             &["Position", "Velocity"],
+            // legacy names that migrate, next to their replacements
+            &["MeshId", "MeshContent"],
+            &["TextureID", "TextureContent"],
+            &["Texture", "TextureContent"],
+            &["Image", "ImageContent"],
+            &["IgnoreGuiInset", "ScreenInsets"],
         ];
         let mut uid_ctr = 1u32;
         let with_uid = r.chance(1, 3);
@@ -625,6 +631,63 @@ impl Engine for DetSim {
                         }
                     }
                     other => ctx.count(&format!("resave2_failed:{}:{}", f.tag(), other.class())),
+                }
+            }
+        }
+        // The same for a *foreign* file: one written without the reflection database
+        // (names and types exactly as in the DOM, so legacy names stand next to their
+        // replacements and aliases next to canonical names, in name order). Loading it
+        // and saving is the first save; loading that and saving again must reproduce it.
+        crate::env::rewind();
+        if let Saved::Ok(f0) = save(Format::XmlNoReflection, &dom0, &sel0) {
+            // Same format throughout (the file is XML, so the XML behaviours): what a
+            // conversion to the other format does to the bytes is not C07's subject.
+            for f in FORMATS.iter().filter(|f| f.is_xml() && **f != Format::XmlNoReflection) {
+                crate::env::rewind();
+                let reader = *f;
+                let l1 = match load(reader, &f0) {
+                    Some(d) => d,
+                    None => {
+                        ctx.count(&format!("foreign_file_rejected:{}", reader.tag()));
+                        continue;
+                    }
+                };
+                let r1: Vec<Ref> = l1.root().children().to_vec();
+                ctx.evals += 1;
+                let b1 = match save(*f, &l1, &r1) {
+                    Saved::Ok(b) => b,
+                    other => {
+                        ctx.count(&format!("foreign_file_save_failed:{}:{}", f.tag(), other.class()));
+                        continue;
+                    }
+                };
+                let l2 = match load(*f, &b1) {
+                    Some(d) => d,
+                    None => {
+                        ctx.count(&format!("foreign_file_reload_rejected:{}", f.tag()));
+                        continue;
+                    }
+                };
+                let r2: Vec<Ref> = l2.root().children().to_vec();
+                ctx.evals += 1;
+                match save(*f, &l2, &r2) {
+                    Saved::Ok(b2) => {
+                        ctx.count("foreign_file_fixed_point_checked");
+                        ctx.log.u64(digest_bytes(&b2));
+                        if b1 != b2 {
+                            let pos = b1.iter().zip(b2.iter()).position(|(x, y)| x != y).unwrap_or(b1.len().min(b2.len()));
+                            ctx.violate(
+                                format!("fixed-point|{}|foreign-file|first-and-second-save-differ", f.tag()),
+                                format!(
+                                    "a file written without the reflection database was loaded and saved ({} bytes); loading that and saving again gives {} bytes; first difference at offset {}",
+                                    b1.len(),
+                                    b2.len(),
+                                    pos
+                                ),
+                            );
+                        }
+                    }
+                    other => ctx.count(&format!("foreign_file_resave_failed:{}:{}", f.tag(), other.class())),
                 }
             }
         }
